@@ -333,6 +333,29 @@ def run(facts, only_functions=None):
                                   "read of slot.next through %s with no dominating liveness test: on a vacant slot the value "
                                   "is a free-list link, not an adjacency list head" % desc, {})
                     rr.bad(v)
+        # ---- a slot reference obtained through an API index handed to another function (which will read its links)
+        for i, t in b.calls():
+            if t["f"].get("crate") != "petgraph":
+                continue
+            for a in t["args"]:
+                l = op_local(a)
+                if l is None or not re.match(r"&'\{erased\} (mut )?graph_impl::Node<core::option::Option<", b.lty(l)):
+                    continue
+                sexpr = b.local_expr(l, 14)
+                klass, lv, desc = T.provenance(b, sexpr)
+                if klass != "API":
+                    continue
+                rcnt += 1
+                site = "pass-slot#%d->%s" % (rcnt, last_seg(callee_name(t["f"])))
+                gs = T.guards(b, i)
+                sk = slot_key(sexpr, b)
+                match = [g for g in gs if same_slot(g[0], sk)]
+                if match:
+                    rr.ok(b.npath, site, "%s; guarded by %s" % (desc, match[0][1]))
+                else:
+                    rr.bad(Violation("TAG-R", b.npath, site, b.file, t["line"],
+                                     "a node slot reached through %s is handed to %s without a dominating liveness test: for a vacant slot its "
+                                     "`next` holds free-list links, which would be walked as an adjacency list" % (desc, callee_name(t["f"])), {}))
     rw.floor = 14
     rw.floor_what = "next/node stores"
     rw.notes.append("liveness filters (summarised): %s" % sorted(T.live_filters))
